@@ -741,7 +741,8 @@ def run(ctx: Ctx):
         ctx.count("pair_stage")
         ctx.case_done(pc, key=("pair", k), nontrivial=spec["G"] > 0)
         if k < n_e2e:
-            pe = dict(pc, e2e=True, argv=ctx.rng.choice([[], ["--keep_prep"], ["--flow"], ["--keep_prep", "-O", "drop"]]))
+            pe = dict(pc, e2e=True, argv=[[], ["--keep_prep"], ["--flow"], ["--keep_prep", "-O", "drop"], ["--drop_globals"], ["-t"],
+                                            ["--drop_globals", "--keep_prep"], ["--power-stats"]][k % 8])
             oracle_on_case(ctx, pe)
             ctx.count("pair_e2e")
             ctx.case_done(pe, key=("pair-e2e", k), nontrivial=spec["G"] > 0)
